@@ -38,7 +38,6 @@ static int add(struct genopt *out, int n, uint8_t b, struct genst next)
         for (int i = 0; i < n; i++)
                 if (out[i].byte == b) return n;
         if (n >= GEN_MAXOPT) mcx_fatal("generator menu overflow");
-        next.pos++;
         out[n].byte = b;
         out[n].next = next;
         return n + 1;
